@@ -83,6 +83,7 @@ type Contracts struct {
 	Receivers map[string]string // struct name -> static path prefix ("" for root)
 	Aliases   map[string]string // static path -> static path
 	Opaque    map[string]bool   // struct types treated as opaque scalars
+	Options   map[string]bool   // package-wide modelling options (freshalloc)
 	RunTags   []string          // tags for run-time check obligations in this package
 	Scan      []string          // every assume/pure/trusted/wraps/extern line (for evidence)
 	Lemmas    []*Lemma
@@ -112,13 +113,13 @@ type WriterRule struct {
 	Line    int
 }
 
-var keywordRe = regexp.MustCompile(`^(requires|ensures|assume|modifies|bundle|use|axiom|inline|trusted|loop|at|ghost|wraps|func|pred|pure|extern|singleton|uses|receiver|alias|opaque|runtags|lemma|writers|callers|forbid|params|results|nopanic|terminates|maypanic)\b`)
+var keywordRe = regexp.MustCompile(`^(requires|ensures|assume|modifies|bundle|use|axiom|inline|trusted|loop|at|ghost|wraps|func|pred|pure|extern|singleton|uses|receiver|alias|opaque|runtags|lemma|writers|callers|forbid|params|results|nopanic|terminates|maypanic|option)\b`)
 
 func newContracts() *Contracts {
 	return &Contracts{
 		GhostIdx: map[string]*GhostDecl{}, Preds: map[string]*Pred{}, Pure: map[string]bool{},
 		Externs: map[string]*FuncSpec{}, Funcs: map[string]*FuncSpec{},
-		Bundles: map[string]*FuncSpec{}, Receivers: map[string]string{}, Aliases: map[string]string{}, Opaque: map[string]bool{},
+		Bundles: map[string]*FuncSpec{}, Receivers: map[string]string{}, Aliases: map[string]string{}, Opaque: map[string]bool{}, Options: map[string]bool{},
 	}
 }
 
@@ -246,6 +247,8 @@ func ParseContracts(file string, c *Contracts) error {
 			c.Aliases[strings.TrimSpace(a)] = strings.TrimSpace(b)
 		case "opaque":
 			c.Opaque[rest] = true
+		case "option":
+			c.Options[rest] = true
 		case "runtags":
 			tags, _ := parseTags(rest)
 			c.RunTags = tags
